@@ -6,6 +6,7 @@ import PqV.Drv.Access
 import PqV.Drv.RowFilter
 import PqV.Drv.Stats
 import PqV.Drv.Part
+import PqV.Drv.Merge
 /-
   `pqv` — line-protocol driver over the executable definitions of PqV (Spec, Impl, Gen).
   One request per line on stdin, one reply per line on stdout.  Pure per line.
@@ -28,6 +29,7 @@ def handleLine (line : String) : String :=
     | "rowfilter" => handleRowFilter op a
     | "stats" => handleStats op a
     | "part" => handlePart op a
+    | "merge" => handleMerge op a
     | _ => s!"err unknown-stream {stream}"
   | _ => "err bad-request"
 
